@@ -161,7 +161,10 @@ def check_state(ctx, state, kernel, uops_of, n, eps, info, uniform_ref=None):
         reqs.append("feasible %s %s %s %s" % (esc(frac(eps)), esc(str(n)), esc(S.enc_uops(us)), esc(vec(ins.port_pressure))))
         idx.append(li)
     fails = 0
-    for li, rep in zip(idx, ctx.driver.ask(reqs)):
+    for li, rep in zip(idx, ctx.driver.ask_tolerant(reqs, os.path.join(core.VERIF, "replays", "C01"))):
+        if rep is None:
+            ctx.count("feasible_not_judged_driver_crash")
+            continue
         ctx.count("feasible_checks_" + state)
         if rep != "ok":
             fails += 1
@@ -258,7 +261,14 @@ def run_kernel(ctx, mm, sem, parser, kernel, ports, uops_of, info, inc, trace=Tr
                                                      esc(frac(-Fraction(inc) / 2 - Fraction(1, 10**7)))))
                 idx.append(li)
                 ctx.count("trace_moves", len(ms))
-            for li, rep in zip(idx, ctx.driver.ask(reqs)):
+            # the model's replay recurses over its input: a request on which the natively compiled driver runs out of stack (seen in the
+            # thorough tier only) is repeated alone; if it still does not fit, the line is counted and left to the feasibility
+            # oracle -- a limit of the harness, reported in the evidence (the request is kept under replays/C01/ for diagnosis)
+            replies = ctx.driver.ask_tolerant(reqs, os.path.join(core.VERIF, "replays", "C01"))
+            ctx.count("traces_not_replayed_driver_crash", sum(1 for r_ in replies if r_ is None))
+            for li, rep in zip(idx, replies):
+                if rep is None:
+                    continue
                 ctx.count("traces_replayed")
                 if rep.startswith("ok "):
                     mv = [Fraction(x) for x in rep[3:].split(",")]
